@@ -76,6 +76,11 @@ func (s *Sim) recoverSubject(sub *Subject, plain bool) bool {
 		subst = s.pickSubject(func(x *Subject) bool { return x != sub })
 		label = "existing"
 	}
+	if !plain && subst == nil && s.R.Chance(1, 10) {
+		// a client of another type whose "height" is far above the subject's
+		subst = s.soloSubstitute()
+		label = "solomachine"
+	}
 	if subst == nil {
 		cs := *p.CS
 		cs.FrozenHeight = clienttypes.ZeroHeight()
@@ -177,6 +182,39 @@ func (s *Sim) recoverSubject(sub *Subject, plain bool) bool {
 	return true
 }
 
+// soloSubstitute creates (once per world) an Active 06-solomachine client with a huge sequence.
+func (s *Sim) soloSubstitute() *Subject {
+	if s.solo != nil {
+		return s.solo
+	}
+	var sub *Subject
+	if err := kit.Try(func() {
+		sm := ibctesting.NewSolomachine(s.C.T, s.A.App.AppCodec(), "06-solomachine-verif", "", 1)
+		sm.Sequence = 1 << 60
+		acct := s.signer()
+		msg, err := clienttypes.NewMsgCreateClient(sm.ClientState(), sm.ConsensusState(), acct.SenderAccount.GetAddress().String())
+		if err != nil {
+			panic(kit.Abort{Msg: err.Error()})
+		}
+		s.cur = &opMeta{kind: "create"}
+		o := s.A.Deliver(acct, msg)
+		s.cur = nil
+		if !o.OK() {
+			s.tr("solo machine creation failed: %s", short(o.Log))
+			return
+		}
+		id, err := ibctesting.ParseClientIDFromEvents(o.Res.Events)
+		if err != nil {
+			panic(kit.Abort{Msg: err.Error()})
+		}
+		sub = s.adopt(id, &VChain{Name: "solo"}, "foreign")
+	}); err != nil {
+		s.tr("solo machine creation aborted: %v", err)
+	}
+	s.solo = sub
+	return sub
+}
+
 func (s *Sim) createClientWith(v *VChain, cs *ibctm.ClientState, cons *ibctm.ConsensusState, role string) *Subject {
 	acct := s.signer()
 	msg, err := clienttypes.NewMsgCreateClient(cs, cons, acct.SenderAccount.GetAddress().String())
@@ -222,9 +260,16 @@ func (s *Sim) judgeRecover(o *kit.Outcome, m *opMeta, curs map[*Subject]*Parsed,
 		if stS == stActive || definitelyNotActive(stT) || !match || !higher {
 			s.inc("C25", "recover_rejected_as_required")
 		}
+		if subst.Role == "foreign" {
+			s.inc("C25", "recover_other_type_rejected")
+		}
 		return
 	}
 	cur := curs[sub]
+	if subst.Role == "foreign" {
+		s.viol("C25", "C25|recover|substitute-other-type", "recovery of tendermint client %s succeeded with substitute %s of another client type", sub.ID, subst.ID)
+		return
+	}
 	if stS == stActive {
 		s.viol("C25", "C25|recover|subject-active", "recovery of %s succeeded although the subject was Active", sub.ID)
 	}
